@@ -1784,6 +1784,29 @@ def _ids_codec_by_id():
     return "true" if ok else "false"
 
 
+@fact("reconf_handler_creates_object", "bool", "true")
+def _reconf_handler_creates_object():
+    """does the handler of a per-channel RECONFIGURE instantiate a Channel object (ChannelFactory.new / Channel(...))?
+    (the pinned handler did: `factory.new(id)._strconfig = strconfig`)"""
+    h = find("gateway_base.py", "Message._reconfigure")
+    src = _src(h)
+    calls = [n.func.attr for n in ast.walk(h) if isinstance(n, ast.Call) and isinstance(n.func, ast.Attribute)]
+    if ".new(" in src or "Channel(" in src:
+        return "true"
+    if calls.count("_local_reconfigure") != 1:
+        raise ValueError("RECONFIGURE handler: unknown shape")
+    lr = _src(find("gateway_base.py", "ChannelFactory._local_reconfigure"))
+    if ".new(" in lr or "Channel(" in lr:
+        return "true"
+    nw = [_src(n) for n in _body_nodoc(find("gateway_base.py", "ChannelFactory.new"))]
+    want_new = ["with self._writelock:\n    if self.finished:\n        raise OSError(f'connection already closed: {self.gateway}')\n    if id is None:\n        id = self.count\n        self.count += 2\n    try:\n        channel = self._channels[id]\n    except KeyError:\n        channel = self._channels[id] = Channel(self.gateway, id)\n        strconfig = self._strconfigs.pop(id, None)\n        if strconfig is None and id in self._callbacks:\n            strconfig = self._callbacks[id][2]\n        if strconfig is not None:\n            channel._strconfig = strconfig\n    return channel"]
+    want_lr = ["channel = self._channels.get(id)", "item = self._callbacks.get(id)", "if channel is not None:\n    channel._strconfig = strconfig", "if item is not None:\n    self._callbacks[id] = (item[0], item[1], strconfig)", "if channel is None and item is None:\n    self._strconfigs[id] = strconfig"]
+    got_lr = [_src(n) for n in _body_nodoc(find("gateway_base.py", "ChannelFactory._local_reconfigure"))]
+    if nw != want_new or got_lr != want_lr:
+        raise ValueError("new() / _local_reconfigure: not the modelled shape")
+    return "false"
+
+
 @fact("ids_tables_forget_ok", "bool", "false")
 def _ids_tables_forget_ok():
     """every per-channel table of the ChannelFactory is emptied by _no_longer_opened, and the RECONFIGURE handler never
